@@ -375,6 +375,10 @@ def reuse_histories(T, O, b, r, res, count, dist):
             except lib.Unmodelled:
                 tree = None
                 continue
+            if _step == 1:
+                for m in (False, True):       # a call that cannot complete, then the history goes on
+                    gentree.aborted_call(inst[m], T)
+                history.append({"step": "aborted calls on a 3000-level tree (RecursionError)"})
             history.append({"step": edit, "tree": gentree.describe(tree)[:600]})
             payload = {"add_head": ah, "history": list(history)}
             outs = {}
